@@ -400,6 +400,30 @@ func (w *Walk) Mutate() int {
 	return n
 }
 
+// MutateBytes changes only the byte runs (signatures, roots, bit lists, ...): the value stays
+// structurally valid (version tags, lengths and indices are untouched), so that a component that
+// still reads it can complete whatever it is doing. Falls back to Mutate if there is no byte run.
+func (w *Walk) MutateBytes() int {
+	var runs, arrays []Leaf
+	for _, l := range w.Leaves {
+		if l.Run {
+			runs = append(runs, l)
+			if l.V.Kind() == reflect.Array { // fixed-size byte arrays carry no length or sentinel encoding
+				arrays = append(arrays, l)
+			}
+		}
+	}
+	if len(arrays) > 0 {
+		runs = arrays
+	}
+	if len(runs) == 0 {
+		return w.Mutate()
+	}
+	sub := &Walk{Leaves: runs}
+
+	return sub.Mutate()
+}
+
 func mutateLeaf(v reflect.Value) bool {
 	switch v.Kind() {
 	case reflect.Bool:
